@@ -3,6 +3,8 @@ import multiprocessing
 import os
 import traceback
 
+PRE_FORK = []      # callables run in the parent before workers are forked (shared scratch files)
+
 NPROC = int(os.environ.get('VERIF_PROCS', '0')) or min(16, os.cpu_count() or 1)
 
 
@@ -20,6 +22,8 @@ def pmap(fn, tasks, procs=None, chunksize=1):
     procs = procs or NPROC
     if procs <= 1 or len(tasks) <= 1:
         return [_guard((fn, t)) for t in tasks]
+    for hook in PRE_FORK:
+        hook()
     ctx = multiprocessing.get_context('fork')
     with ctx.Pool(min(procs, len(tasks))) as pool:
         return pool.map(_guard, [(fn, t) for t in tasks], chunksize)
